@@ -30,7 +30,8 @@ fn parse_y86(file_contents: &FileContents) -> Result<RunningProgram, Error> {
 fn press_enter() {
     let mut input = String::new();
     println!("(press enter to continue)");
-    stdin().read_line(&mut input).unwrap();
+    // what is typed is ignored; so is a line that cannot be read (e.g. not valid UTF-8)
+    let _ = stdin().read_line(&mut input);
 }
 
 fn run_y86<W: Write>(mut running_program: RunningProgram, yo_path: &Path,
